@@ -803,6 +803,9 @@ def _write_scope_layers(
     outer = layers[0]
     outer_scope = outer["scope"]
     expr.scope = outer_scope if isinstance(outer_scope, Scope) else Scope(outer_scope)
+    # A layer promoted from the stack has no owner yet: without it item edits of
+    # the scope do not reach the render order.
+    expr.scope.owner = expr
     expr.scope_state = ScopeState(
         body_before=list(outer["body_before"]),
         body_after=list(outer["body_after"]),
